@@ -513,3 +513,339 @@ def key_lookup(R, I, tier):
                 R.obligation(f'{label}: Some(id) => the table entry under that id is this very key; None => no entry equals the key', s.pc,
                              z3.If(some, z3.Or([z3.And(rid == i_, k_ == sk) for i_, k_ in zip(ids, keys)] + [z3.BoolVal(False)]) if rid is not None else z3.BoolVal(False), z3.Not(exists)), group='keys/lookup')
             R.samples.append({'case': label, 'paths': len(done)})
+
+# ------------------------------------------------------------------ TargetsEditor::delegate_role / add_key / build_targets / sign
+def delegation_edits(R, I, tier):
+    """creating a delegated role: delegate_role(signed role, paths, key_pairs, keyids, threshold) on an editor whose delegations hold an arbitrary
+    (bounded) key table and role list; afterwards build_targets / sign must contain exactly the role that was put in, after the roles that were
+    there, with every supplied key available in the delegations key table and every earlier key still there; sign() must emit the new role's
+    metadata as it was handed over (from_signed of the very document and signatures), under the role's name"""
+    TE = 'TargetsEditor'
+    def tfn(name, first='_1: &'):
+        for n, fs in I.funcs.items():
+            if 'editor/targets.rs:87:' in n and n.endswith('>::' + name) and fs[0].args.startswith(first): return fs[0]
+        raise Stuck('TargetsEditor::' + name + ' not found in the MIR')
+    f_delegate, f_build, f_sign = tfn('delegate_role', '_1: &mut TargetsEditor'), tfn('build_targets', '_1: &TargetsEditor'), tfn('sign', '_1: &TargetsEditor')
+    KID = z3.Function('KeyIdOf', z3.BitVecSort(16), z3.BitVecSort(8))       # key ids are a function of the key (digest of its canonical form)
+    configs = [(nold, nnew, nr, nnr) for nold in (0, 1, 2) for nnew in (0, 1, 2) for nr, nnr in ((1, None), (0, 1))]
+    if tier == 'quick': configs = [(0, 1, 1, None), (1, 2, 1, None), (2, 1, 0, 1), (2, 2, 1, None)]
+    R.assumptions.append('delegate_role: key ids are a collision-free function of the key (SHA-256 of its canonical form) for the keys in play')
+    R.bounds['delegate_role'] = 'delegations key table of 0..2 entries (symbolic keys, may coincide with the supplied ones), 0..2 supplied key pairs, 0..1 roles already delegated, new_roles absent or holding one role; key ids are a function of the key'
+    for nold, nnew, nroles, nnr in configs:
+        for has_deleg in (True, False) if (nold, nnew) == (1, 2) or tier != 'quick' else (True,):
+            label = f'delegate_role[{nold} keys in the table, {nnew} supplied, {nroles} roles, new_roles {"None" if nnr is None else nnr}, delegations {"Some" if has_deleg else "None"}]'
+            st = State(); st.env['fs'] = {}
+            W = {'signed_roles': [], 'in_roles': {}}
+            old_v = [z3.BitVec(f'oldkey{i}', 16) for i in range(nold)]; new_v = [z3.BitVec(f'newkey{i}', 16) for i in range(nnew)]
+            for v in old_v + new_v: st.pc.append(v != 0)
+            if nold > 1: st.pc.append(z3.Distinct([KID(v) for v in old_v]))      # a HashMap holds one entry per id
+            if nnew > 1: st.pc.append(z3.Distinct([KID(v) for v in new_v]))
+            for a_, b_ in itertools.combinations(old_v + new_v, 2): st.pc.append(z3.Implies(KID(a_) == KID(b_), a_ == b_))     # no digest collisions among the keys in play
+            kid = lambda v: Obj('keyid', nid=KID(v)); key = lambda v: Obj('key', vid=v)
+            table = Obj('smap', entries=[(kid(v), key(v)) for v in old_v])
+            def mk_role(nm):
+                return Adt('DelegatedRole', None, {(None, F('DelegatedRole', 'name')): Obj('str', s=nm), (None, F('DelegatedRole', 'keyids')): Obj('vec', elems=[], uid='keyids-' + nm),
+                                                   (None, F('DelegatedRole', 'threshold')): z3.BitVec('thr_' + nm, 64), (None, F('DelegatedRole', 'paths')): Obj('pathset', uid='paths-' + nm),
+                                                   (None, F('DelegatedRole', 'terminating')): z3.Bool('term_' + nm),
+                                                   (None, F('DelegatedRole', 'targets')): mk_some(Adt('Signed', None, {(None, F('Signed', 'signed')): Adt('Targets', None, {(None, 'uid'): 'doc-' + nm}), (None, F('Signed', 'signatures')): Obj('signatures', uid='sigs-' + nm)}))})
+            roles0 = [st.alloc(mk_role(f'old{i}')) for i in range(nroles)]
+            deleg = Adt('Delegations', None, {(None, F('Delegations', 'keys')): table, (None, F('Delegations', 'roles')): Obj('vec', elems=roles0)})
+            nr0 = [st.alloc(mk_role(f'pending{i}')) for i in range(nnr or 0)]
+            ed = Adt(TE, None, {(None, F(TE, 'name')): Obj('str', s='me'), (None, F(TE, 'key_holder')): mk_some(Adt('KeyHolder', None, {(None, 'uid'): 'holder'})),
+                                (None, F(TE, 'delegations')): mk_some(deleg) if has_deleg else mk_none(),
+                                (None, F(TE, 'new_targets')): mk_none(), (None, F(TE, 'existing_targets')): mk_some(Obj('fmap', f=lambda k: editor.InT(IDV(0), k))),
+                                (None, F(TE, 'version')): mk_some(z3.BitVec('ed_version', 64)), (None, F(TE, 'expires')): mk_some(z3.Int('ed_expires')),
+                                (None, F(TE, 'new_roles')): mk_none() if nnr is None else mk_some(Obj('vec', elems=nr0)), (None, F(TE, '_extra')): mk_none(),
+                                (None, F(TE, 'limits')): mk_none(), (None, F(TE, 'transport')): mk_none()})
+            in_doc = Adt('Targets', None, {(None, 'uid'): 'doc-NEW'}); in_sigs = Obj('signatures', uid='sigs-NEW')
+            incoming = Adt('Signed', None, {(None, F('Signed', 'signed')): Adt('DelegatedTargets', None, {(None, F('DelegatedTargets', 'name')): Obj('str', s='NEW'), (None, F('DelegatedTargets', 'targets')): in_doc}),
+                                            (None, F('Signed', 'signatures')): in_sigs})
+            paths = Obj('pathset', uid='paths-NEW'); keyids = Obj('vec', elems=[], uid='keyids-NEW'); thr = z3.BitVec('new_threshold', 64)
+            pairs = Obj('smap', entries=[(kid(v), key(v)) for v in new_v])
+            def m_map_into_iter(I_, s, fr, c, a, d, de, rb):
+                m = dr(I_, s, a[0])
+                cells = [s.alloc(Adt('tuple', None, {(None, 0): k, (None, 1): v})) for k, v in m.d['entries']]
+                return Obj('iter', vec=Ref(s.alloc(Obj('vec', elems=cells))), pos=0, owned=True)
+            def m_values(I_, s, fr, c, a, d, de, rb):
+                m = dr(I_, s, a[0]); return Obj('iter', vec=Ref(s.alloc(Obj('vec', elems=[s.alloc(mat(I_, s, v)) for _, v in m.d['entries']]))), pos=0, owned=False)
+            def h_any(I_, s, fr):
+                d = fr.data
+                if 'ret' in d:
+                    hit = d.pop('ret'); hit = hit if z3.is_expr(hit) else z3.BoolVal(bool(hit))
+                    d['acc'] = z3.And(d['acc'], hit) if d['all'] else z3.Or(d['acc'], hit); d['i'] += 1
+                if d['i'] >= len(d['elems']): I_.do_return(s, z3.simplify(d['acc'])); return [s]
+                fnc = I_.resolve_closure(s.heap[d['clos']].ty)
+                I_.push_call(s, fnc, [Ref(d['clos']), Ref(d['elems'][d['i']])], None, None); return [s]
+            def m_any(I_, s, fr, c, a, d, de, rb):
+                it = dr(I_, s, a[0]); vec = dr(I_, s, it.d['vec'])
+                s.frames.append(ModelFrame(h_any, {'elems': list(vec.d['elems'][it.d['pos']:]), 'i': 0, 'all': '::all::<' in c, 'acc': z3.BoolVal('::all::<' in c), 'clos': s.alloc(mat(I_, s, a[1]))}, de, rb)); return PUSHED
+            def m_map_len(I_, s, fr, c, a, d, de, rb): return BV64(len(dr(I_, s, a[0]).d['entries']))
+            def m_contains_key(I_, s, fr, c, a, d, de, rb):
+                m = dr(I_, s, a[0]); k = dr(I_, s, a[1]).d['nid']
+                return z3.Or([k == dr(I_, s, ko).d['nid'] for ko, _ in m.d['entries']] + [z3.BoolVal(False)])
+            def m_key_ne(I_, s, fr, c, a, d, de, rb): return dr(I_, s, a[0]).d['vid'] != dr(I_, s, a[1]).d['vid']
+            def m_key_eq(I_, s, fr, c, a, d, de, rb): return dr(I_, s, a[0]).d['vid'] == dr(I_, s, a[1]).d['vid']
+            def m_get_or_insert(I_, s, fr, c, a, d, de, rb):
+                r = mat(I_, s, a[0]); o = dr(I_, s, r); dd = discr_of(I_, s, o)
+                if not isinstance(dd, int): raise Stuck('get_or_insert on a symbolic Option')
+                if dd == 0: I_.deref_store(s, r, mk_some(mat(I_, s, a[1])))
+                return Ref(r.cid, list(r.path) + [('f', 'Some', 0, '?')])
+            def m_delegated_targets(I_, s, fr, c, a, d, de, rb):
+                sg = mat(I_, s, a[0]); nm = dr(I_, s, a[1])
+                return Adt('Signed', None, {(None, F('Signed', 'signed')): Adt('DelegatedTargets', None, {(None, F('DelegatedTargets', 'name')): clone(nm), (None, F('DelegatedTargets', 'targets')): fld(sg, 'Signed', 'signed')}),
+                                            (None, F('Signed', 'signatures')): fld(sg, 'Signed', 'signatures')})
+            def m_str_deref(I_, s, fr, c, a, d, de, rb): return a[0]
+            ms = [(RXc(r'^<HashMap<Decoded<Hex>, key::Key> as IntoIterator>::into_iter$'), m_map_into_iter), (RXc(r'^<std::collections::hash_map::IntoIter<Decoded<Hex>, key::Key> as Iterator>::next$'), stdm.m_iter_next),
+                  (RXc(r'^HashMap::<Decoded<Hex>, key::Key>::values$'), m_values), (RXc(r'^<std::collections::hash_map::Values<.*> as Iterator>::(any|all)::<'), m_any),
+                  (RXc(r'^HashMap::<Decoded<Hex>, key::Key>::len$'), m_map_len), (RXc(r'^HashMap::<Decoded<Hex>, key::Key>::contains_key::<'), m_contains_key), (RXc(r'^<key::Key as PartialEq>::ne$'), m_key_ne),
+                  (RXc(r'^<key::Key as PartialEq>::eq$'), m_key_eq), (RXc(r'^std::option::Option::<Vec<DelegatedRole>>::get_or_insert$'), m_get_or_insert),
+                  (RXc(r'^<std::string::String as Deref>::deref$'), m_str_deref), (RXc(r'^<&mut Vec<.*> as IntoIterator>::into_iter$'), stdm.m_vec_iter),
+                  (RXc(r'^<std::slice::IterMut<.*> as Iterator>::next$'), stdm.m_iter_next)] + editor.editor_models(I, W) + editor.install_format_models()
+            saved = list(I.models); I.models[:0] = ms
+            try:
+                cell = st.alloc(ed)
+                before_roles = [('old', i) for i in range(nroles)] + [('pending', i) for i in range(nnr or 0)]
+                I.push_call(st, f_delegate, [Ref(cell), incoming, paths, pairs, keyids, thr], None, None)
+                done = []; I.run(st, done.append)
+                results = []
+                for s in done:
+                    tag, _ = classify(s.result)
+                    if tag != 'Ok': results.append((s, 'delegate_role', tag, None)); continue
+                    s2 = s.clone()
+                    I.push_call(s2, f_build, [Ref(cell)], None, None)
+                    d2 = []; I.run(s2, d2.append)
+                    for s3 in d2:
+                        t3, v3 = classify(s3.result); results.append((s3, 'build_targets', t3, v3))
+                    s.frames.append(ModelFrame(h_async_driver, {'phase': 0, 'ctor': f_sign, 'args': [Ref(cell), Ref(s.alloc(Obj('vec', elems=[])))], 'generics': None}))
+                    d4 = []; I.run(s, d4.append)
+                    for s5 in d4:
+                        t5, v5 = classify(s5.result); results.append((s5, 'sign', t5, v5))
+            finally:
+                I.models[:] = saved
+            R.check_interp_clean(I, label)
+            def dec(m, label=label): return {'kind': 'delegate_role', 'case': label, 'roles': nroles, 'pending': nnr or 0, 'has_delegations': has_deleg, 'old_keys': [m.eval(v, model_completion=True).as_long() for v in old_v], 'supplied_keys': [m.eval(v, model_completion=True).as_long() for v in new_v]}
+            built = []
+            for s, stage, tag, val in results:
+                R.paths += 1
+                if stage == 'delegate_role':
+                    R.obligation(f'{label}: delegate_role fails only when the editor has no delegations', s.pc, z3.BoolVal(not has_deleg), decode=dec, group='delegate/refusal')
+                    continue
+                if not has_deleg: R.obligation(f'{label}: delegate_role succeeded without delegations to add the keys to', s.pc, z3.BoolVal(False), decode=dec, group='delegate/refusal')
+                if stage == 'build_targets':
+                    if tag != 'Ok': R.obligation(f'{label}: build_targets succeeds after a successful delegate_role (version and expiration are set)', s.pc, z3.BoolVal(False), decode=dec, group='delegate/build'); continue
+                    built.append(s)
+                    doc = fld(val, 'DelegatedTargets', 'targets'); dg = mat(I, s, fld(doc, 'Targets', 'delegations'))
+                    if not (isinstance(dg.discr, int) and dg.discr == 1):
+                        R.obligation(f'{label}: the built targets carry delegations', s.pc, z3.BoolVal(False), decode=dec, group='delegate/build'); continue
+                    dgv = dg.fields[('Some', 0)]
+                    roles = [s.heap[c] for c in dr(I, s, fld(dgv, 'Delegations', 'roles')).d['elems']]
+                    names = [dr(I, s, fld(r, 'DelegatedRole', 'name')).d.get('s') for r in roles]
+                    want_names = [f'{k}{i}' for k, i in before_roles] + ['NEW']
+                    R.obligation(f'{label}: roles after the edit = roles delegated before, pending new roles, then the new role (nothing lost, nothing twice)', s.pc, z3.BoolVal(names == want_names), decode=dec, group='delegate/role-list')
+                    if names and names[-1] == 'NEW':
+                        r = roles[-1]; t = mat(I, s, fld(r, 'DelegatedRole', 'targets'))
+                        okt = isinstance(t.discr, int) and t.discr == 1 and fld(t.fields[('Some', 0)], 'Signed', 'signed').fields.get((None, 'uid')) == 'doc-NEW' and dr(I, s, fld(t.fields[('Some', 0)], 'Signed', 'signatures')).d.get('uid') == 'sigs-NEW'
+                        okf = dr(I, s, fld(r, 'DelegatedRole', 'paths')).d.get('uid') == 'paths-NEW' and dr(I, s, fld(r, 'DelegatedRole', 'keyids')).d.get('uid') == 'keyids-NEW'
+                        R.obligation(f'{label}: the new role carries the paths, key ids, threshold, metadata and signatures it was created with, and is not terminating', s.pc,
+                                     z3.And(z3.BoolVal(bool(okt and okf)), mat(I, s, fld(r, 'DelegatedRole', 'threshold')) == thr, z3.Not(mat(I, s, fld(r, 'DelegatedRole', 'terminating')))), decode=dec, group='delegate/new-role')
+                    for (k, i), r in zip(before_roles, roles):
+                        ok = dr(I, s, fld(r, 'DelegatedRole', 'paths')).d.get('uid') == f'paths-{k}{i}' and dr(I, s, fld(r, 'DelegatedRole', 'keyids')).d.get('uid') == f'keyids-{k}{i}' and not dr(I, s, fld(r, 'DelegatedRole', 'keyids')).d['elems']
+                        R.obligation(f'{label}: role {k}{i} is unchanged', s.pc, z3.And(z3.BoolVal(bool(ok)), mat(I, s, fld(r, 'DelegatedRole', 'threshold')) == z3.BitVec(f'thr_{k}{i}', 64)), decode=dec, group='delegate/others-unchanged')
+                    tb = dr(I, s, fld(dgv, 'Delegations', 'keys'))
+                    def lookup(k):
+                        t = stdm.V0()
+                        for ko, vo in tb.d['entries']: t = z3.If(k == dr(I, s, ko).d['nid'], dr(I, s, vo).d['vid'], t)
+                        return t
+                    for v in new_v: R.obligation(f'{label}: every supplied key is in the delegations key table under its id', s.pc, lookup(KID(v)) == v, decode=dec, group='delegate/keys-added')
+                    for v in old_v: R.obligation(f'{label}: every key that was in the table is still there', s.pc, lookup(KID(v)) == v, decode=dec, group='delegate/keys-kept')
+                    anyk = z3.BitVec('anykeyid', 8)
+                    R.obligation(f'{label}: the table holds nothing but the earlier and the supplied keys', s.pc, z3.Or([lookup(anyk) == 0] + [z3.And(anyk == KID(v), lookup(anyk) == v) for v in old_v + new_v]), decode=dec, group='delegate/keys-nothing-else')
+                if stage == 'sign' and tag == 'Ok':
+                    hows = []
+                    try:
+                        rl = [s.heap[c] for c in dr(I, s, fld(val, 'SignedDelegatedTargets', 'roles')).d['elems']]
+                        for sr in rl:
+                            rec = next((x for x in W['signed_roles'] if x['tag'] == sr.fields.get((None, 'tag'))), {})
+                            sg = fld(sr, 'SignedRole', 'signed'); dt = fld(sg, 'Signed', 'signed')
+                            hows.append((rec.get('how'), dr(I, s, fld(dt, 'DelegatedTargets', 'name')).d.get('s'), fld(dt, 'DelegatedTargets', 'targets').fields.get((None, 'uid')) if isinstance(fld(dt, 'DelegatedTargets', 'targets'), Adt) else None,
+                                         dr(I, s, fld(sg, 'Signed', 'signatures')).d.get('uid')))
+                    except (AttributeError, KeyError, TypeError):
+                        hows = [('unreadable', None, None, None)]        # a result built from calls the models do not cover
+                    want = [('new', 'me')] + [('from_signed', f'{k}{i}') for k, i in before_roles if k == 'pending'] + [('from_signed', 'NEW')]
+                    R.obligation(f'{label}: sign() emits this role freshly signed, then every newly delegated role exactly as handed over (document and signatures), under its own name', s.pc,
+                                 z3.BoolVal([h[:2] for h in hows] == want and all(h[2] == 'doc-' + h[1] and h[3] == 'sigs-' + h[1] for h in hows[1:])), decode=dec, group='delegate/sign-emits')
+            if has_deleg: R.reach_any(f'{label}: delegate_role and build_targets succeed', [s.pc for s in built])
+            R.samples.append({'case': label, 'paths': len(results)})
+
+# ------------------------------------------------------------------ RepositoryEditor::change_delegated_targets / sign_targets_editor
+def _walk_roles(s, doc, parent='targets'):
+    """yields (role name, parent name, DelegatedRole adt) below a Targets document"""
+    d = fld(doc, 'Targets', 'delegations')
+    if not (isinstance(d.discr, int) and d.discr == 1): return
+    for c in fld(d.fields[('Some', 0)], 'Delegations', 'roles').d['elems']:
+        r = s.heap[c]; nm = fld(r, 'DelegatedRole', 'name').d['s']
+        yield nm, parent, r
+        t = fld(r, 'DelegatedRole', 'targets')
+        if isinstance(t.discr, int) and t.discr == 1:
+            yield from _walk_roles(s, fld(t.fields[('Some', 0)], 'Signed', 'signed'), nm)
+
+def editor_switch(R, I, tier):
+    """moving the editor between roles of a delegation tree (targets -> A -> C, targets -> B):
+    change_delegated_targets(role) opens exactly that role's stored metadata with the delegating role's keys as the key holder;
+    sign_targets_editor puts the re-signed role back in its own place and nowhere else"""
+    RE = 'RepositoryEditor'; TE = 'TargetsEditor'
+    f_change = None; f_sign = None
+    for n, fs in I.funcs.items():
+        if 'editor/mod.rs' in n and n.endswith('>::change_delegated_targets'): f_change = fs[0]
+        if 'editor/mod.rs' in n and n.endswith('>::sign_targets_editor'): f_sign = fs[0]
+    if f_change is None or f_sign is None: raise Stuck('change_delegated_targets / sign_targets_editor not found')
+    R.bounds['editor_switch'] = 'delegation tree targets -> {A -> {C}, B} with symbolic contents (target maps of any size); role argument in {targets, A, B, C, a name that is not delegated}'
+    def world():
+        st = State(); st.env['fs'] = {}
+        W = {'in_roles': {}}
+        top = editor.mk_targets_doc(st, editor.mk_tree([('A', [('C', [])]), ('B', [])]), W)
+        top.fields[(None, 'uid')] = 'doc-targets'
+        d = fld(top, 'Targets', 'delegations'); d.fields[('Some', 0)].fields[(None, 'owner')] = 'targets'
+        for nm, parent, r in _walk_roles(st, top):
+            doc = fld(fld(r, 'DelegatedRole', 'targets').fields[('Some', 0)], 'Signed', 'signed'); doc.fields[(None, 'uid')] = 'doc-' + nm
+            dd = fld(doc, 'Targets', 'delegations')
+            if ('Some', 0) in dd.fields: dd.fields[('Some', 0)].fields[(None, 'owner')] = nm
+        return st, top
+    def snapshot_tree(s, top): return {nm: (parent, stdm.deep_clone(I, s, fld(r, 'DelegatedRole', 'targets'))) for nm, parent, r in _walk_roles(s, top)}
+    def mk_editor(st, top, te, has_signed=True):
+        return Adt(RE, None, {(None, F(RE, 'signed_root')): Adt('SignedRole', None, {(None, F('SignedRole', 'signed')): Adt('Signed', None, {(None, F('Signed', 'signed')): Adt('Root', None, {(None, 'owner'): 'ROOT'})})}),
+                              (None, F(RE, 'signed_targets')): mk_some(Adt('Signed', None, {(None, F('Signed', 'signed')): top, (None, F('Signed', 'signatures')): Obj('signatures', uid='sigs-targets')})) if has_signed else mk_none(),
+                              (None, F(RE, 'targets_editor')): te, (None, F(RE, 'transport')): mk_none(), (None, F(RE, 'limits')): mk_none()})
+    def m_str_eq(I_, s, fr, c, a, d, de, rb):
+        x = dr(I_, s, a[0]); y = dr(I_, s, a[1])
+        if x.d.get('s') is None or y.d.get('s') is None: raise Stuck(f'string comparison {x!r} == {y!r}')
+        return z3.BoolVal(x.d['s'] == y.d['s'])
+    def m_create_signed(I_, s, fr, c, a, d, de, rb): return leaf_future('c10_create_signed', te=dr(I_, s, a[0]))
+    def op_create_signed(I_, s, fut):
+        okf = z3.Bool(fresh_name('create_signed_ok')); nm = dr(I_, s, fld(fut.d['te'], TE, 'name'))
+        new = Adt('Signed', None, {(None, F('Signed', 'signed')): Adt('DelegatedTargets', None, {(None, F('DelegatedTargets', 'name')): clone(nm), (None, F('DelegatedTargets', 'targets')): Adt('Targets', None, {(None, 'uid'): 'doc-RESIGNED', (None, F('Targets', 'delegations')): mk_none()})}),
+                                   (None, F('Signed', 'signatures')): Obj('signatures', uid='sigs-RESIGNED')})
+        return Forks([(okf, mk_ready(mk_ok(new)), None), (z3.Not(okf), mk_ready(mk_err(error('SigningKeysNotFound'))), None)])
+    LEAF_OPS['c10_create_signed'] = op_create_signed
+    ms = [(RXc(r'^<&str as PartialEq>::eq$|^<std::string::String as PartialEq(<&str>)?>::eq$'), m_str_eq), (RXc(r'^TargetsEditor::create_signed$'), m_create_signed),
+          (RXc(r'^<&mut Vec<.*> as IntoIterator>::into_iter$'), stdm.m_vec_iter), (RXc(r'^<std::slice::IterMut<.*> as Iterator>::next$'), stdm.m_iter_next),
+          (RXc(r'^<std::string::String as Deref>::deref$'), m_identity), (RXc(r'^<str as ToString>::to_string$'), lambda I_, s, fr, c, a, d, de, rb: clone(dr(I_, s, a[0])))] + editor.install_format_models() + stdm.STD_MODELS
+    parents = {'targets': 'ROOT', 'A': 'targets', 'B': 'targets', 'C': 'A'}
+    # ---- change_delegated_targets
+    for role in ('targets', 'A', 'B', 'C', 'nobody'):
+        for open_editor in (False, True):
+            label = f'change_delegated_targets[{role}{", an editor is still open" if open_editor else ""}]'
+            st, top = world()
+            te0 = mk_some(Adt(TE, None, {(None, F(TE, 'name')): Obj('str', s='B'), (None, 'uid'): 'open-editor'})) if open_editor else mk_none()
+            ed = mk_editor(st, top, te0)
+            before = stdm.deep_clone(I, st, top)
+            saved = list(I.models); I.models[:0] = ms
+            try:
+                cell = st.alloc(ed)
+                I.push_call(st, f_change, [Ref(cell), Obj('str', s=role)], None, None)
+                done = []; I.run(st, done.append)
+            finally:
+                I.models[:] = saved
+            R.check_interp_clean(I, label)
+            oks = []
+            for s in done:
+                R.paths += 1
+                tag, _ = classify(s.result)
+                edv = s.heap[cell]; te = mat(I, s, fld(edv, RE, 'targets_editor'))
+                cur_top = fld(fld(edv, RE, 'signed_targets').fields[('Some', 0)], 'Signed', 'signed')
+                out = []; editor.same(s, cur_top, s, before, out, 'signed_targets')
+                R.obligation(f'{label}: the stored metadata tree is not altered by switching roles', s.pc, editor.conj(out), group='switch/tree-untouched')
+                if tag != 'Ok':
+                    R.obligation(f'{label}: refused only when an editor is still open or the role is not delegated; the open editor is kept', s.pc,
+                                 z3.BoolVal((open_editor or role == 'nobody') and (te.discr == (1 if open_editor else 0)) and (not open_editor or te.fields[('Some', 0)].fields.get((None, 'uid')) == 'open-editor')), group='switch/refusal')
+                    continue
+                oks.append(s)
+                if open_editor or role == 'nobody':
+                    R.obligation(f'{label}: must be refused', s.pc, z3.BoolVal(False), group='switch/refusal'); continue
+                if not (isinstance(te.discr, int) and te.discr == 1):
+                    R.obligation(f'{label}: an editor is opened', s.pc, z3.BoolVal(False), group='switch/opened'); continue
+                tev = te.fields[('Some', 0)]
+                src = before if role == 'targets' else fld(dict((n, r) for n, _, r in _walk_roles(s, before))[role], 'DelegatedRole', 'targets').fields[('Some', 0)].fields[(None, F('Signed', 'signed'))]
+                nm = dr(I, s, fld(tev, TE, 'name')).d.get('s')
+                kh = mat(I, s, fld(tev, TE, 'key_holder'))
+                khv = kh.fields.get(('Some', 0)) if isinstance(kh.discr, int) and kh.discr == 1 else None
+                owner = None
+                if isinstance(khv, Adt):
+                    vnames = variants('KeyHolder'); vn = vnames[khv.discr] if isinstance(khv.discr, int) else None
+                    inner = khv.fields.get((vn, 0)) if vn else None
+                    owner = (vn, inner.fields.get((None, 'owner')) if isinstance(inner, Adt) else None)
+                want_owner = ('Root', 'ROOT') if role == 'targets' else ('Delegations', parents[role])
+                R.obligation(f'{label}: the opened editor is for this role and signs against the keys of the delegating role ({parents[role]})', s.pc, z3.BoolVal(nm == role and owner == want_owner), group='switch/key-holder')
+                out = []
+                ex = mat(I, s, fld(tev, TE, 'existing_targets'))
+                if not (isinstance(ex.discr, int) and ex.discr == 1): out.append((False, 'existing_targets is None'))
+                else: editor.same(s, dr(I, s, ex.fields[('Some', 0)]), s, dr(I, s, fld(src, 'Targets', 'targets')), out, 'existing_targets')
+                editor.same(s, mat(I, s, fld(tev, TE, 'delegations')), s, fld(src, 'Targets', 'delegations'), out, 'delegations')
+                exx = mat(I, s, fld(tev, TE, '_extra'))
+                if not (isinstance(exx.discr, int) and exx.discr == 1): out.append((False, '_extra is None'))
+                else: editor.same(s, dr(I, s, exx.fields[('Some', 0)]), s, dr(I, s, fld(src, 'Targets', '_extra')), out, '_extra')
+                nt = mat(I, s, fld(tev, TE, 'new_targets')); nr = mat(I, s, fld(tev, TE, 'new_roles'))
+                R.obligation(f'{label}: the opened editor starts from exactly the stored targets, delegations and unknown members of that role, with nothing pending', s.pc,
+                             z3.And(editor.conj(out), z3.BoolVal(nt.discr == 0 and nr.discr == 0)), group='switch/content')
+            if not open_editor and role != 'nobody': R.reach_any(f'{label}: succeeds', [s.pc for s in oks])
+            R.samples.append({'case': label, 'paths': len(done)})
+    # ---- sign_targets_editor
+    for role in ('targets', 'A', 'B', 'C', 'nobody', None):
+        label = f'sign_targets_editor[{"no editor open" if role is None else "editor open on " + role}]'
+        st, top = world()
+        te0 = mk_none() if role is None else mk_some(Adt(TE, None, {(None, F(TE, 'name')): Obj('str', s=role), (None, 'uid'): 'open-editor'}))
+        ed = mk_editor(st, top, te0)
+        before = stdm.deep_clone(I, st, top)
+        saved = list(I.models); I.models[:0] = ms
+        try:
+            cell = st.alloc(ed)
+            st.frames.append(ModelFrame(h_async_driver, {'phase': 0, 'ctor': f_sign, 'args': [Ref(cell), Ref(st.alloc(Obj('vec', elems=[])))], 'generics': None}))
+            done = []; I.run(st, done.append)
+        finally:
+            I.models[:] = saved
+        R.check_interp_clean(I, label)
+        oks = []
+        for s in done:
+            R.paths += 1
+            tag, _ = classify(s.result)
+            edv = s.heap[cell]; te = mat(I, s, fld(edv, RE, 'targets_editor'))
+            stg = mat(I, s, fld(edv, RE, 'signed_targets'))
+            cur = stg.fields[('Some', 0)]; cur_top = fld(cur, 'Signed', 'signed')
+            if tag != 'Ok':
+                out = []; editor.same(s, cur_top, s, before, out, 'signed_targets')
+                R.obligation(f'{label}: a failed signing step leaves the stored metadata as it was', s.pc, editor.conj(out), group='switch/sign-failure-no-effect')
+                R.obligation(f'{label}: fails only if an editor is open', s.pc, z3.BoolVal(role is not None), group='switch/sign-failure-no-effect')
+                continue
+            oks.append(s)
+            R.obligation(f'{label}: afterwards no editor is open', s.pc, z3.BoolVal(isinstance(te.discr, int) and te.discr == 0), group='switch/sign-closes')
+            if role == 'nobody':
+                R.obligation(f'{label}: a role that is not delegated cannot be put back', s.pc, z3.BoolVal(False), group='switch/sign-place'); continue
+            if role is None:
+                out = []; editor.same(s, cur_top, s, before, out, 'signed_targets')
+                R.obligation(f'{label}: nothing changes', s.pc, editor.conj(out), group='switch/sign-place'); continue
+            if role == 'targets':
+                R.obligation(f'{label}: the re-signed top-level role becomes the stored targets (document and signatures)', s.pc,
+                             z3.BoolVal(cur_top.fields.get((None, 'uid')) == 'doc-RESIGNED' and dr(I, s, fld(cur, 'Signed', 'signatures')).d.get('uid') == 'sigs-RESIGNED'), group='switch/sign-place')
+                continue
+            def own(t):
+                """a role's own stored metadata: the roles it delegates to are compared on their own"""
+                c = stdm.deep_clone(I, s, t)
+                if isinstance(c.discr, int) and c.discr == 1:
+                    dgo = fld(fld(c.fields[('Some', 0)], 'Signed', 'signed'), 'Targets', 'delegations')
+                    if isinstance(dgo.discr, int) and dgo.discr == 1:
+                        for cc in fld(dgo.fields[('Some', 0)], 'Delegations', 'roles').d['elems']: s.heap[cc].fields[(None, F('DelegatedRole', 'targets'))] = Obj('elided')
+                return c
+            now = {nm: (parent, fld(r, 'DelegatedRole', 'targets')) for nm, parent, r in _walk_roles(s, cur_top)}
+            was = {nm: (parent, fld(r, 'DelegatedRole', 'targets')) for nm, parent, r in _walk_roles(s, before)}
+            R.obligation(f'{label}: the top-level document itself is kept', s.pc, z3.BoolVal(cur_top.fields.get((None, 'uid')) == 'doc-targets'), group='switch/sign-place')
+            t = now.get(role, (None, None))[1]
+            placed = t is not None and isinstance(t.discr, int) and t.discr == 1 and fld(t.fields[('Some', 0)], 'Signed', 'signed').fields.get((None, 'uid')) == 'doc-RESIGNED' and dr(I, s, fld(t.fields[('Some', 0)], 'Signed', 'signatures')).d.get('uid') == 'sigs-RESIGNED'
+            R.obligation(f'{label}: the re-signed role replaces the stored metadata of {role}, under its delegating role ({parents[role]})', s.pc, z3.BoolVal(bool(placed) and now[role][0] == parents[role]), group='switch/sign-place')
+            out = []
+            for nm, (parent, t0) in was.items():
+                if nm == role or (role == 'A' and nm == 'C'): continue          # C lives inside A's document, which is replaced as a whole
+                if nm not in now: out.append((False, f'{nm} disappeared')); continue
+                editor.same(s, own(now[nm][1]), s, own(t0), out, nm)
+            R.obligation(f'{label}: every other role keeps its stored metadata', s.pc, editor.conj(out), group='switch/sign-others')
+        if role not in ('nobody',): R.reach_any(f'{label}: succeeds', [s.pc for s in oks])
+        R.samples.append({'case': label, 'paths': len(done)})
